@@ -32,7 +32,8 @@ RULE = ("one scenario = 1-5 stations (continuous or finite-rate EVSEs, shuffled 
         "0-3 constraints with mixed-sign coefficients, 1-9 non-overlapping sessions (back-to-back stays, arrival ties across "
         "stations), scheduler in {uncontrolled, scripted multi-period, sorted FCFS/EDF/LLF/LRPT with distinct keys}; "
         "6 runs per scenario (original, stations permuted, constraints permuted, sessions permuted, shifted by k, other "
-        "PYTHONHASHSEED); stream 2: in-process sequences A, <unrelated / re-wired sites with the same ids>, A on three-phase "
+        "PYTHONHASHSEED); every 5th scenario is a single-phase site (equal phase angles) with a feeder row of ones over all "
+        "stations and tighter 0/1 pod rows that bind, every 7th a three-phase site with binding constraints; stream 2: in-process sequences A, <unrelated / re-wired sites with the same ids>, A on three-phase "
         "sites with binding constraints and sorted schedulers - the second run of A must equal the first exactly; "
         "each run is one correspondence case; distinct = distinct (scenario, variant); cases in which a "
         "feasibility or fully-charged decision is within 1e-6 / 1e-9 of its threshold are skipped as float-ambiguous")
@@ -346,7 +347,10 @@ def scenario_cases(sc, outs):
 
 def gen_cases(rng, n, tier):
     n_sc = max(1, n // 6)
-    scs = [rand_scenario(rng, i) for i in range(n_sc)]
+    # every 5th scenario: single-phase site, feeder row of ones + binding pod rows; every 7th: three-phase site with binding
+    # constraints; the rest: the general generator
+    scs = [rand_singlephase(rng, i) if i % 5 == 2 else rand_threephase(rng, i) if i % 7 == 3 else rand_scenario(rng, i)
+           for i in range(n_sc)]
     per = [[run_variant(sc, v) for v in VARIANTS] for sc in scs]
     for outs, h in zip(per, other_hashseed(scs)):
         outs.append(h)
@@ -384,6 +388,33 @@ def rand_threephase(rng, idx, prefix="TP"):
     return dict(idx=idx, stations=stations, constraints=constraints, sessions=sessions, kind="sorted",
                 sort=rng.choice(["fcfs", "edf", "llf"]), max_recompute=rng.choice([None, 1]),
                 script_seed=rng.randint(0, 10 ** 6), script_len=rng.randint(1, 3), shift=1, perm_seed=rng.randint(0, 10 ** 6))
+
+
+def rand_singlephase(rng, idx):
+    """single-phase site (all phase angles equal) behind one feeder limit (a row of ones over ALL stations) with tighter
+    pod limits (0/1 indicator rows) that bind; sorted scheduler (mostly FCFS on finite-rate EVSEs).  Whether the feeder
+    row or a pod row is registered first must not matter (constraint-order clause)."""
+    n = rng.randint(3, 6)
+    names = ["SP-%03d" % i for i in rng.sample(range(100, 160), n)]
+    phase = rng.choice([0, 0, 30, -120])
+    finite = rng.random() < 0.7
+    stations = [dict(id=nm, kind=(["F", rng.choice([[8, 16, 24, 32], [6, 12, 18, 24, 30]])] if finite else ["C", 0, 32]),
+                     voltage=rng.choice([208, 240]), phase=phase) for nm in names]
+    constraints = [dict(name="con-0", coefs={m: 1 for m in names}, limit=rng.choice([64, 80, 100, 160]))]
+    for c in range(rng.randint(1, 2)):
+        members = rng.sample(names, rng.randint(2, max(2, n - 1)))
+        constraints.append(dict(name="con-%d" % (c + 1), coefs={m: 1 for m in members}, limit=rng.choice([16, 24, 32, 40])))
+    rng.shuffle(constraints)
+    sessions = []
+    arrs = rng.sample(range(0, n + 2), n)
+    deps = rng.sample(range(n + 4, 2 * n + 10), n)
+    for k, (nm, a, d) in enumerate(zip(names, arrs, deps)):
+        sessions.append(dict(k=k, id="sess-%02d" % k, station=nm, arrival=a, departure=d,
+                             energy=rng.choice([6.0, 12.0, 20.0]), cap=60.0, init=0.0, maxp=rng.choice([6.5, 7.5, 11.0])))
+    return dict(idx=idx, stations=stations, constraints=constraints, sessions=sessions, kind="sorted",
+                sort=rng.choice(["fcfs", "fcfs", "edf", "llf"]), max_recompute=rng.choice([None, 1]),
+                script_seed=rng.randint(0, 10 ** 6), script_len=rng.randint(1, 3), shift=rng.randint(1, 3),
+                perm_seed=rng.randint(0, 10 ** 6))
 
 
 def rewired(rng, sc, idx):
@@ -568,7 +599,8 @@ def search(rng, budget_s, broken):
                 r = monitor(c)
                 if r:
                     return dict(case=c["input"], impl=None, why=r)
-        sc = rand_scenario(rng, 10 ** 6 + i)
+        sc = rand_singlephase(rng, 10 ** 6 + i) if i % 3 == 0 else rand_threephase(rng, 10 ** 6 + i) if i % 3 == 2 \
+            else rand_scenario(rng, 10 ** 6 + i)
         i += 1
         outs = [run_variant(sc, v) for v in VARIANTS]
         for c in scenario_cases(sc, outs + [dict(outs[0], variant="hash")]):
